@@ -301,6 +301,25 @@ func c15Targets(p *core.Prog, r *core.Run, pre string) {
 		case "hints":
 			okG = okG && noTarget && noAddr
 		}
+		// whether a service-mode record contributes is decided by its priority,
+		// target, port, ALPN and hint parameters only
+		other := ""
+		for _, f := range fs {
+			for _, e := range []*core.Expr{f.L, f.R} {
+				if e == nil {
+					continue
+				}
+				e.Walk(func(x *core.Expr) bool {
+					if x.Op == "field" && len(x.Args) == 1 {
+						if v, ok := isRec(x.Args[0]); ok && v == rv && !matches(`^(Priority|Target|Port|NoDefaultALPN|ALPN|IPv4Hint|IPv6Hint|ECH)$`, x.Name) {
+							other = x.Name
+						}
+					}
+					return true
+				})
+			}
+		}
+		r.Check(pre+".GUARDS", key+":contributes", other == "", pos, "a service-mode record is passed over only for its priority, target, port, ALPN or hints (here the decision also looks at its field %q)", other)
 		r.Check(pre+".GUARDS", key, okG, pos, "alias-mode records are skipped (%v); %s addresses are used under the right condition (record names a target: %v, names none: %v, origin has no address: %v)", notAlias, src, hasTarget, noTarget, noAddr)
 	}
 	r.Check(pre+".PAIR", "Targets:hint-families", hintFields["IPv4Hint"] == 1 && hintFields["IPv6Hint"] == 1, p.Pos(iter.Pos()), "the record's hints of both address families are offered, each once: %v", hintFields)
